@@ -10,3 +10,9 @@ string_t value_str(const parameter_t& p) { return p.value<string_t>(); }
 std::tuple<int64_t, int64_t>   pair_i64(const parameter_t& p) { return p.value_pair<int64_t>(); }
 std::tuple<scalar_t, scalar_t> pair_f64(const parameter_t& p) { return p.value_pair<scalar_t>(); }
 } // namespace nvdrv
+#include <nano/solver/status.h>
+namespace nvdrv
+{
+using namespace nano;
+parameter_t& assign_enum(parameter_t& p, solver_status v) { return p = v; }
+} // namespace nvdrv
